@@ -1,5 +1,6 @@
 #define _GNU_SOURCE
 #include "vx.h"
+int vx_case_active(void);
 #ifdef VX_COV
 #include <stdio.h>
 #include <stdlib.h>
@@ -44,7 +45,9 @@ pm *pm_new(int r, int c) {
   pm *m = hmalloc(sizeof(pm));
   m->r = r; m->c = c; m->w = (c + 63) / 64; if (m->w == 0) m->w = 1;
   m->d = hcalloc((size_t)(r ? r : 1) * m->w, 8);
-  if (!m->d) hdie("out of memory in reference model");
+  if (!m->d) { /* inside a case an absurd size means the LIBRARY handed back a matrix with corrupted dimensions: that is a finding of the case (abort = attributed crash), not a harness problem */
+    if (vx_case_active()) { fprintf(stderr, "reference model asked for a %d x %d matrix: dimensions of a library matrix are corrupted\n", r, c); abort(); }
+    hdie("out of memory in reference model"); }
   return m;
 }
 void pm_free(pm *m) { if (m) { hfree(m->d); hfree(m); } }
@@ -422,6 +425,7 @@ typedef struct {
 static shared_t *S; static volatile uint64_t *SET;
 static int g_wid = 0, g_nw = 16; static uint64_t g_counter = 0, g_resume_after = 0; static int g_have_resume = 0;
 static int64_t g_replay = -1; static double g_deadline_at = 0; static int g_in_case = 0;
+int vx_case_active(void) { return g_in_case; }
 int vx_tier = 0; const char *vx_property = "";
 static int g_argc; static char **g_argv;
 extern long m4ri_verif_mzd_headers_in_use(void); /* hook H3 in mzd.c (guard M4RI_VERIF) */
